@@ -252,6 +252,38 @@ def install_take_loop(h):
     h.queue.havoc(h.ip, 'queue')
   h.ip.loops[(Q, 0)] = LoopSpec('for _ in range(', inv, havoc, ghost_pre=pre, locals_modified=[])
   h.take_old = old
+  # the same contract for the loop written directly in takeSomeFromQueue, collecting into a list
+  # local (whatever its name: the one local that is an empty list when the loop is entered)
+  Q2 = FACTORY + '.takeSomeFromQueue'
+  st = {}
+
+  def out2(fr):
+    if 'name' not in st:
+      cands = [k for k, v in fr.locals.items() if isinstance(v, PyList) and not v.items]
+      if len(cands) != 1:
+        raise EngineError("takeSomeFromQueue: cannot identify the batch under construction (%r)" % (cands,))
+      st['name'] = cands[0]
+    v = fr[st['name']]
+    if isinstance(v, PyList):
+      v = v.to_symseq(h.ip, TItem)
+      v.name = 'batch'
+      fr.locals[st['name']] = v
+    return v
+
+  def pre2(fr):
+    old['q'] = h.queue.term
+    out2(fr)
+
+  def inv2(fr):
+    k = fr.loop_k[0]
+    return [('taken_is_prefix', out2(fr).term == z3.SubSeq(old['q'], 0, k)),
+            ('rest_is_suffix', h.queue.term == z3.SubSeq(old['q'], k, z3.Length(old['q']) - k)),
+            ('k_le_len', k <= z3.Length(old['q']))]
+
+  def havoc2(fr):
+    out2(fr).havoc(h.ip, 'batch')
+    h.queue.havoc(h.ip, 'queue')
+  h.ip.loops[(Q2, 0)] = LoopSpec('for _ in range(', inv2, havoc2, ghost_pre=pre2, locals_modified=[])
 
 
 def take_post(old_q, per_msg, batch_term, new_q):
